@@ -264,6 +264,21 @@ def check_case(case):
             bad("invariant|" + case["p"], "module-level state changed by an assembly", str(diff[0])[:150], str(diff[1])[:150])
         if lines != snapshot:
             bad("invariant|" + case["p"], "source lines modified by the assembly", snapshot[:3], lines[:3])
+        # the list handed to Program.process itself (as readlines() gives it: with line ends, and with the last one missing)
+        if not any("INCLUDE" in ln for ln in lines):
+            from cocoasm.program import Program
+            for variant in ("with-line-ends", "last-line-without"):
+                given = [ln + "\n" for ln in lines]
+                if variant == "last-line-without" and given:
+                    given[-1] = given[-1][:-1]
+                before = list(given)
+                try:
+                    with common.watchdog(20):
+                        Program().process(given)
+                except Exception:
+                    pass
+                if given != before:
+                    bad("invariant|" + case["p"], "the list given to process() was modified ({})".format(variant), before[-2:], given[-2:])
         res["state"] = "G:{}".format(hashlib.md5(g1.encode()).hexdigest()[:12])
     else:
         hist = [case["q1"], case["q2"]] + ([case["q3"]] if "q3" in case else [])
